@@ -1,6 +1,7 @@
 package fcsim
 
 import (
+	"math/bits"
 	"sort"
 
 	"pgregory.net/rapid"
@@ -50,13 +51,33 @@ type gen struct {
 
 func (g *gen) lbl(s string) string { return s }
 
+// uni draws a uniform value in [0, n) from fair coin flips. rapid's integer generators are
+// deliberately biased towards small values and range ends, which would skew every choice below.
+func (g *gen) uni(n int, l string) int {
+	if n <= 1 {
+		return 0
+	}
+	nb := bits.Len(uint(n - 1))
+	for {
+		v := 0
+		for i := 0; i < nb; i++ {
+			if rapid.Bool().Draw(g.t, l) {
+				v |= 1 << i
+			}
+		}
+		if v < n {
+			return v
+		}
+	}
+}
+
 func (g *gen) intn(lo, hi int, l string) int {
 	if hi <= lo {
 		return lo
 	}
-	return rapid.IntRange(lo, hi).Draw(g.t, l)
+	return lo + g.uni(hi-lo+1, l)
 }
-func (g *gen) chance(pct int, l string) bool { return rapid.IntRange(0, 99).Draw(g.t, l) < pct }
+func (g *gen) chance(pct int, l string) bool { return g.uni(100, l) < pct }
 
 func (g *gen) root(id int) fcmodel.Root {
 	r := RootOf(id)
@@ -121,8 +142,10 @@ func (g *gen) pickKnown(l string) int {
 
 func (g *gen) pickRef(l string, block, gap bool) (fcmodel.Ref, bool) {
 	rs := g.refs(block, gap)
-	if len(rs) == 0 {
-		return fcmodel.Ref{}, false
+	if len(rs) == 0 { // class empty (e.g. only gap nodes left after a prune): any node; ok=false tells the caller
+		rs = g.refs(true, true)
+		r := rs[g.intn(0, len(rs)-1, l)]
+		return r, false
 	}
 	if g.chance(40, l+"_late") { // bias to late slots
 		lo := len(rs) - 5
@@ -143,11 +166,15 @@ func (g *gen) first(id int) (fcmodel.Ref, bool) {
 // epochs for a new node under parent id at the given slot: mostly chain-consistent
 func (g *gen) nodeEpochs(parent int, slot uint64) (uint64, uint64) {
 	je, fe := g.m.Justified.Epoch, g.m.Finalized.Epoch
-	if p, ok := g.first(parent); ok {
-		je, fe = g.m.Nodes[p].JE, g.m.Nodes[p].FE
+	if p, ok := g.first(parent); ok { // at least what the parent chain had seen
 		if ls, ok := g.m.LastSlot(p.Root); ok {
 			n := g.m.Nodes[fcmodel.Ref{Root: p.Root, Slot: ls}]
-			je, fe = n.JE, n.FE
+			if n.JE > je {
+				je = n.JE
+			}
+			if n.FE > fe {
+				fe = n.FE
+			}
 		}
 	}
 	switch c := g.intn(0, 99, "ep_cls"); {
@@ -290,9 +317,19 @@ func (g *gen) genAtt() Op {
 func (g *gen) genUpd() Op {
 	op := Op{K: KUpd}
 	h, _ := g.pickRef("upd_tip", true, false)
-	if g.chance(45, "upd_head") {
+	if g.chance(35, "upd_head") {
 		if mh, ok, _ := g.m.Head(); ok {
 			h = mh
+		}
+	} else if g.chance(60, "upd_ahead_tip") {
+		var ahead []fcmodel.Ref
+		for _, r := range g.refs(true, false) {
+			if n := g.m.Nodes[r]; n.JE > g.m.Justified.Epoch || n.FE > g.m.Finalized.Epoch {
+				ahead = append(ahead, r)
+			}
+		}
+		if len(ahead) > 0 {
+			h = ahead[g.intn(0, len(ahead)-1, "upd_ahead")]
 		}
 	}
 	hn := g.m.Nodes[h]
@@ -375,7 +412,7 @@ func (g *gen) genBal(l string) []uint64 {
 	}
 	out := make([]uint64, n)
 	for i := range out {
-		out[i] = rapid.SampledFrom([]uint64{0, 1, 1, 1, 2, 3, 32}).Draw(g.t, l+"_b")
+		out[i] = []uint64{0, 1, 1, 1, 2, 3, 32}[g.uni(7, l+"_b")]
 	}
 	return out
 }
@@ -557,12 +594,13 @@ func Gen(t *rapid.T, p Profile) *Case {
 	c.Cfg.SPE = 4
 	c.Cfg.AnchorRoot = 1
 	c.Cfg.AnchorParent = 0
-	c.Cfg.AnchorSlot = rapid.SampledFrom([]uint64{0, 0, 0, 0, 4, 8}).Draw(t, "anchor_slot")
+	g.t = t
+	c.Cfg.AnchorSlot = []uint64{0, 0, 0, 0, 4, 8}[g.uni(6, "anchor_slot")]
 	c.Cfg.JE = c.Cfg.AnchorSlot / 4
 	c.Cfg.FE = c.Cfg.JE
 	g.nval = g.intn(1, p.MaxVals, "nval")
 	c.Cfg.Bal = g.genBal("bal0")
-	c.Cfg.Sink = rapid.SampledFrom(p.Sinks).Draw(t, "sink")
+	c.Cfg.Sink = p.Sinks[g.uni(len(p.Sinks), "sink")]
 	if c.Cfg.Sink == "fail" {
 		c.Cfg.FailAt = g.intn(1, 8, "fail_at")
 	}
